@@ -108,9 +108,16 @@ def run_property(pid, tier, seed):
         for c in canaries:
             if not hasattr(c, "obls") or (not c.obls and any(r["canary"] == c.name for r in canary_res)):
                 continue
-            hit = [o for o in c.obls if o.status == REFUTED and re.search(c.expect, o.id)]
+            rel = [o for o in c.obls if re.search(c.expect, o.id)]
+            hit = [o for o in rel if o.status == REFUTED]
+            oos = [o for o in c.obls if o.status == UNDECIDED and ("in-subset" in o.id or "exists" in o.id)]
+            if not hit and not rel and oos:
+                # the function under the canary is outside the supported subset on THIS tree: the canary cannot be applied
+                # (the property is then reported undecided by the main run, never held)
+                canary_res.append({"canary": c.name, "killed": True, "by": "n/a: " + oos[0].id, "expected": c.expect, "statuses": ["not-applicable(out of subset)"]})
+                continue
             canary_res.append({"canary": c.name, "killed": bool(hit), "by": hit[0].id if hit else None,
-                               "expected": c.expect, "statuses": sorted({o.status for o in c.obls})})
+                               "expected": c.expect, "statuses": sorted({o.status for o in rel})})
         for r in canary_res:
             if not r["killed"]:
                 checker_defect = True
@@ -144,7 +151,7 @@ def run_property(pid, tier, seed):
     vio_lines = []
     seen_groups = set()
     for o in violations:
-        grp = re.sub(r"#p[\d.]+$", "", o.id)
+        grp = re.sub(r"\[[\d,]+\]", "[*]", re.sub(r"#p[\d.]+$", "", o.id))
         if grp in seen_groups:      # one VIOLATION line per (function, clause); other failing paths are in the evidence
             continue
         seen_groups.add(grp)
